@@ -1,4 +1,5 @@
-(* Model/AdWire.v — a ClassAd on the wire: the sender and the three receivers.
+(* Model/AdWire.v — a ClassAd on the wire: the sender and the four receivers (parsing, raw-text, skipping,
+   size-capped parsing: see the end of the file).
 
    Go code modelled:
      message/classad.go  putClassAdToMessageWithOptions (after the attribute filter of Model/Privacy.v),
@@ -15,6 +16,7 @@
 From Coq Require Import List NArith ZArith Bool.
 From Coq Require String.
 From Cedar Require Import Lib.Bytes gen.Consts Model.Msg Model.Privacy.
+From Cedar Require Model.Decode.
 Import ListNotations.
 Local Open Scope N_scope.
 
@@ -341,3 +343,72 @@ Fixpoint split_eq (s : bytes) (acc : bytes) : option (bytes * bytes) :=
   | [] => None
   | b :: r => if byte_eqb b x3d then Some (rev' acc, r) else split_eq r (b :: acc)
   end.
+
+(* ===================== the size-capped parsing receiver ================= *)
+(* getClassAdFromMessageWithMaxSize with maxSize = cap (behind GetClassAdWithMaxSize): the FOURTH
+   receiver.  cap <= 0 is GetClassAd.  With cap > 0 every wire string of the ad - each expression,
+   each SecretMarker, the put_secret field behind it, MyType, TargetType - is read with
+   GetStringWithMaxSize(cap - total) (Model/Decode.v get_string_max, C13's model of that function),
+   refused outright when cap - total <= 0, and then charged len + 1 to total.  The secret field is read
+   under the same crypto-for-secret toggle as in GetClassAd (getSecretStringWithMaxSize). *)
+Definition t_get_string_max (k : Z) (t : treader) : treader * mres bytes :=
+  t_step (Decode.get_string_max (t_enc t) k) t.
+Definition t_get_secret_max (k : Z) (t : treader) : treader * mres bytes :=
+  let '(t1, res) := t_get_string_max k (t_prepare t) in (t_restore t1, res).
+
+Definition charge1 (total : Z) (s : bytes) : Z := (total + Z.of_N (lenN s) + 1)%Z.
+
+(* one budgeted read: "remainingBytes := maxSize - totalBytesRead; if remainingBytes <= 0 { error }" *)
+Definition budget_get (cap total : Z) (secret : bool) (t : treader) : treader * mres bytes :=
+  if (cap - total <=? 0)%Z then (t, MErr MOther)
+  else if secret then t_get_secret_max (cap - total) t else t_get_string_max (cap - total) t.
+
+Fixpoint get_exprs_capped (ok : bytes -> bool) (cap : Z) (n : nat) (t : treader) (total : Z) (acc : list bytes)
+  : treader * mres (list bytes * Z) :=
+  match n with
+  | O => (t, MOk (rev acc, total))
+  | S k =>
+      match budget_get cap total false t with
+      | (t1, MOk s) =>
+          let total1 := charge1 total s in
+          if bytes_eqb s secret_marker then
+            match budget_get cap total1 true t1 with
+            | (t2, MOk s2) =>
+                if ok s2 then get_exprs_capped ok cap k t2 (charge1 total1 s2) (s2 :: acc) else (t2, MErr MOther)
+            | (t2, MErr e) => (t2, MErr e)
+            | (t2, MPanic) => (t2, MPanic)
+            end
+          else if ok s then get_exprs_capped ok cap k t1 total1 (s :: acc) else (t1, MErr MOther)
+      | (t1, MErr e) => (t1, MErr e)
+      | (t1, MPanic) => (t1, MPanic)
+      end
+  end.
+
+Definition get_types_capped (cap : Z) (t : treader) (total : Z) (exprs : list bytes) : treader * mres received :=
+  match budget_get cap total false t with
+  | (t1, MOk my) =>
+      match budget_get cap (charge1 total my) false t1 with
+      | (t2, MOk tg) => (t2, MOk (exprs, my, tg))
+      | (t2, MErr e) => (t2, MErr e)
+      | (t2, MPanic) => (t2, MPanic)
+      end
+  | (t1, MErr e) => (t1, MErr e)
+  | (t1, MPanic) => (t1, MPanic)
+  end.
+
+(* GetClassAdWithMaxSize(cap); [parses] as for get_ad *)
+Definition get_ad_capped (parses : bytes -> bool) (cap : Z) (t : treader) : treader * mres received :=
+  if (cap <=? 0)%Z then get_ad parses t else
+  match t_get_int t with
+  | (t1, MOk n) =>
+      match get_exprs_capped parses cap (Z.to_nat n) t1 0%Z [] with
+      | (t2, MOk (es, total)) => get_types_capped cap t2 total es
+      | (t2, MErr e) => (t2, MErr e)
+      | (t2, MPanic) => (t2, MPanic)
+      end
+  | (t1, MErr e) => (t1, MErr e)
+  | (t1, MPanic) => (t1, MPanic)
+  end.
+
+(* what the capped receiver charges for an ad whose wire strings are [items] (markers included) *)
+Definition charged (items : list bytes) : Z := fold_left charge1 items 0%Z.
